@@ -300,3 +300,496 @@ func c15ReachableFrom(from []*ssa.BasicBlock) map[*ssa.BasicBlock]bool {
 	}
 	return seen
 }
+
+// ---------------------------------------------------------------------------
+// Calls of thin local closures
+
+// c15WriteOnce: the cell a is written exactly once, by a store that precedes (same block, earlier) or dominates every
+// other use, its address does not escape, and every closure that captures it only loads from it. A load from the cell -
+// in the function itself or in such a closure - therefore yields the stored value.
+func c15WriteOnce(a *ssa.Alloc) ssa.Value {
+	if a == nil || a.Referrers() == nil {
+		return nil
+	}
+	var st *ssa.Store
+	for _, ref := range *a.Referrers() {
+		if s, ok := ref.(*ssa.Store); ok {
+			if s.Val == ssa.Value(a) || s.Addr != ssa.Value(a) || st != nil {
+				return nil
+			}
+			st = s
+		}
+	}
+	if st == nil {
+		return nil
+	}
+	for _, ref := range *a.Referrers() {
+		switch x := ref.(type) {
+		case *ssa.Store, *ssa.DebugRef:
+		case *ssa.UnOp:
+			if x.Op != token.MUL || !instrBefore(st, x) {
+				return nil
+			}
+		case *ssa.MakeClosure:
+			if !instrBefore(st, x) {
+				return nil
+			}
+			fn, _ := x.Fn.(*ssa.Function)
+			if fn == nil {
+				return nil
+			}
+			for i, b := range x.Bindings {
+				if b != ssa.Value(a) {
+					continue
+				}
+				if i >= len(fn.FreeVars) || fn.FreeVars[i].Referrers() == nil {
+					return nil
+				}
+				for _, r2 := range *fn.FreeVars[i].Referrers() {
+					if u, ok := r2.(*ssa.UnOp); ok && u.Op == token.MUL {
+						continue
+					}
+					if _, dbg := r2.(*ssa.DebugRef); dbg {
+						continue
+					}
+					return nil
+				}
+			}
+		default:
+			return nil
+		}
+	}
+	return st.Val
+}
+
+// c15EffCall is what a call instruction amounts to: the function that runs and the operands it receives, as values of
+// the calling function.
+type c15EffCall struct {
+	At     ssa.CallInstruction
+	Callee *ssa.Function
+	Args   []ssa.Value // receiver first for methods; nil entries are operands that could not be traced to the caller
+}
+
+// c15EffectiveCall resolves the call `at`.
+//
+//   - A static call of a declared function is itself.
+//   - A call of a closure made in the same function, `f := func() R { return h(x, y) }; ..; f()`, whose body is a thin
+//     wrapper - one basic block that only loads captured cells / fields of them, makes exactly one call h(..) and returns
+//     h's results unchanged - amounts to the call h(x, y) at the place of `f()`: running f runs h once with those
+//     operands and nothing else, and hands back what h returned. An operand that is the load of a captured cell is
+//     replaced by the value the enclosing function stored into that cell (c15WriteOnce: the only store, executed
+//     before the closure was made, the cell is only read elsewhere), a constant stays itself.
+//
+// ok is false when `at` is neither (a dynamic call, a closure with a richer body).
+func c15EffectiveCall(at ssa.CallInstruction) (c15EffCall, bool) {
+	com := at.Common()
+	if com.IsInvoke() {
+		return c15EffCall{}, false
+	}
+	switch v := com.Value.(type) {
+	case *ssa.Function:
+		if v.Parent() == nil {
+			return c15EffCall{At: at, Callee: v, Args: com.Args}, true
+		}
+	case *ssa.MakeClosure:
+		fn, _ := v.Fn.(*ssa.Function)
+		if fn == nil || v.Parent() != at.Parent() || len(fn.Blocks) != 1 || len(com.Args) != 0 || len(fn.Params) != 0 || fn.Recover != nil {
+			return c15EffCall{}, false
+		}
+		var inner *ssa.Call
+		var ret *ssa.Return
+		for _, in := range fn.Blocks[0].Instrs {
+			switch x := in.(type) {
+			case *ssa.DebugRef:
+			case *ssa.UnOp:
+				if x.Op != token.MUL {
+					return c15EffCall{}, false
+				}
+			case *ssa.FieldAddr, *ssa.Field, *ssa.Extract:
+			case *ssa.Call:
+				if inner != nil {
+					return c15EffCall{}, false
+				}
+				inner = x
+			case *ssa.Return:
+				ret = x
+			default:
+				return c15EffCall{}, false
+			}
+		}
+		if inner == nil || ret == nil || inner.Call.IsInvoke() {
+			return c15EffCall{}, false
+		}
+		callee, _ := inner.Call.Value.(*ssa.Function)
+		if callee == nil || callee.Parent() != nil {
+			return c15EffCall{}, false
+		}
+		// the wrapper returns exactly what the inner call returned
+		if tup, isTup := inner.Type().(*types.Tuple); isTup {
+			if len(ret.Results) != tup.Len() {
+				return c15EffCall{}, false
+			}
+			for i, rv := range ret.Results {
+				ex, isEx := rv.(*ssa.Extract)
+				if !isEx || ex.Tuple != ssa.Value(inner) || ex.Index != i {
+					return c15EffCall{}, false
+				}
+			}
+		} else if len(ret.Results) != 1 || ret.Results[0] != ssa.Value(inner) {
+			return c15EffCall{}, false
+		}
+		eff := c15EffCall{At: at, Callee: callee}
+		for _, a := range inner.Call.Args {
+			eff.Args = append(eff.Args, c15CapturedValue(v, fn, a))
+		}
+		return eff, true
+	}
+	return c15EffCall{}, false
+}
+
+// c15CapturedValue: the value - of the function that made the closure mc of fn - that the operand a of an instruction
+// of fn holds: a constant, or the content of a captured write-once cell. nil when it cannot be traced.
+func c15CapturedValue(mc *ssa.MakeClosure, fn *ssa.Function, a ssa.Value) ssa.Value {
+	switch x := a.(type) {
+	case *ssa.Const:
+		return x
+	case *ssa.UnOp:
+		fv, ok := x.X.(*ssa.FreeVar)
+		if !ok || x.Op != token.MUL {
+			return nil
+		}
+		for i, f := range fn.FreeVars {
+			if f == fv && i < len(mc.Bindings) {
+				if cell, isCell := mc.Bindings[i].(*ssa.Alloc); isCell {
+					return c15WriteOnce(cell)
+				}
+			}
+		}
+	}
+	return nil
+}
+
+// ---------------------------------------------------------------------------
+// Lists of a holder that are filled before the holder is built
+
+// c15LocalListField: v is a local list `s := make([]T, n)` of tm.Fn that becomes the field F of a struct freshly made
+// in tm.Fn as a whole (`h.F = s` / `&H{F: s}`), and is used for nothing else than element access and len/cap: the
+// element s[i] is the element h.F[i], whether it is written before or after the list is installed. Returns F, "" if not.
+func c15LocalListField(tm *Termer, v ssa.Value) string {
+	mk, ok := v.(*ssa.MakeSlice)
+	if !ok || mk.Referrers() == nil {
+		return ""
+	}
+	field := ""
+	for _, ref := range *mk.Referrers() {
+		switch x := ref.(type) {
+		case *ssa.DebugRef, *ssa.IndexAddr:
+		case *ssa.Call:
+			b, isB := x.Call.Value.(*ssa.Builtin)
+			if !isB || (b.Name() != "len" && b.Name() != "cap") {
+				return ""
+			}
+		case *ssa.Store:
+			fa, isFA := x.Addr.(*ssa.FieldAddr)
+			if x.Val != ssa.Value(mk) || !isFA || field != "" {
+				return ""
+			}
+			if at := tm.Of(fa); !(at.Op == "field" && at.Args[0].Op == "new") {
+				return ""
+			}
+			field = fieldOf(fa.X.Type(), fa.Field).Name()
+		default:
+			return ""
+		}
+	}
+	return field
+}
+
+// c15HolderListField: the address term at is an element `L[i]` of a list of the holder under construction - L being
+// the holder's field itself (`data.F[i]`) or a local list that becomes that field as a whole (c15LocalListField).
+// Returns the holder field, "" if at is not such an element.
+func c15HolderListField(tm *Termer, at *Term) string {
+	if at == nil || at.Op != "elem" || len(at.Args) < 2 {
+		return ""
+	}
+	if at.Args[0].Op == "field" {
+		return at.Args[0].Name
+	}
+	if at.Args[0].V != nil {
+		return c15LocalListField(tm, at.Args[0].V)
+	}
+	return ""
+}
+
+// ---------------------------------------------------------------------------
+// Tables of records
+
+// c15RecordTableRows recognises the "table of records + loop" form of a run of repeated calls:
+//
+//	tab := []struct{a A; b B; ..}{{a0, b0, ..}, {a1, b1, ..}, ..}
+//	for _, e := range tab { use(e.a, e.b) }
+//
+// `at` is the call inside the loop and operands some of its arguments. It returns one row per table entry, row k
+// holding for every operand the value the literal stored into the field that operand reads (operand j of the call in
+// iteration k is exactly rows[k][j]); `at` runs once for every k = 0..N-1, in this order. That is the same fact as the
+// N consecutive calls use(a0, b0); use(a1, b1); ..
+//
+// Conditions (each one is needed for the claim):
+//   - every operand is the load of a field of the current entry: `T[i].f` directly or through the range variable, a
+//     local cell whose only store is `cell = T[i]`, in the loop and before the load, and of which nothing but field
+//     loads is taken;
+//   - T is a literal table: a local array `new [N]E` (possibly through a full slice of it) that is referenced only by
+//     the constant-index field stores of the literal - at most one per entry and field, every one executed before the
+//     loop is entered -, by element/field loads and by len(); it does not escape and is not written anywhere else;
+//     every field an operand reads was stored for every entry;
+//   - i is the counter of the loop and runs 0,1,..,len(T)-1;
+//   - the block of `at` dominates every latch (no iteration skips the call) and the counter test is the only way out
+//     of the loop (no iteration is cut off).
+func c15RecordTableRows(at ssa.CallInstruction, operands []ssa.Value) ([][]ssa.Value, bool) {
+	fn := at.Parent()
+	if fn == nil || len(operands) == 0 {
+		return nil, false
+	}
+	l := InnermostLoop(Loops(fn), at.Block())
+	if l == nil {
+		return nil, false
+	}
+	idx, bound, okc := countsUp(l)
+	if !okc {
+		return nil, false
+	}
+	for _, lt := range l.Latch {
+		if !at.Block().Dominates(lt) {
+			return nil, false
+		}
+	}
+	for b := range l.Blocks {
+		if len(b.Succs) == 0 {
+			return nil, false
+		}
+		for _, s := range b.Succs {
+			if !l.Blocks[s] && b != l.Header {
+				return nil, false
+			}
+		}
+	}
+	loadsOnly := func(v ssa.Value) bool {
+		for _, r := range *v.Referrers() {
+			switch u := r.(type) {
+			case *ssa.UnOp:
+				if u.Op != token.MUL {
+					return false
+				}
+			case *ssa.DebugRef:
+			default:
+				return false
+			}
+		}
+		return true
+	}
+	// element address: only loaded from, as a whole or field by field
+	readOnlyElem := func(ia ssa.Value) bool {
+		for _, r := range *ia.Referrers() {
+			switch u := r.(type) {
+			case *ssa.UnOp:
+				if u.Op != token.MUL {
+					return false
+				}
+			case *ssa.FieldAddr:
+				if !loadsOnly(u) {
+					return false
+				}
+			case *ssa.DebugRef:
+			default:
+				return false
+			}
+		}
+		return true
+	}
+	// the current entry T[i]: returns T
+	curEntry := func(addr ssa.Value) ssa.Value {
+		ia, ok := addr.(*ssa.IndexAddr)
+		if !ok || ia.Index != idx || !l.Blocks[ia.Block()] {
+			return nil
+		}
+		return ia.X
+	}
+	var root *ssa.Alloc
+	var n int64
+	fields := make([]int, len(operands))
+	for j, op := range operands {
+		ld, ok := op.(*ssa.UnOp)
+		if !ok || ld.Op != token.MUL || !l.Blocks[ld.Block()] {
+			return nil, false
+		}
+		fa, ok := ld.X.(*ssa.FieldAddr)
+		if !ok {
+			return nil, false
+		}
+		var tab ssa.Value
+		switch x := fa.X.(type) {
+		case *ssa.IndexAddr:
+			tab = curEntry(x)
+		case *ssa.Alloc:
+			// the range variable
+			var st *ssa.Store
+			for _, r := range *x.Referrers() {
+				switch u := r.(type) {
+				case *ssa.Store:
+					if u.Addr != ssa.Value(x) || u.Val == ssa.Value(x) || st != nil {
+						return nil, false
+					}
+					st = u
+				case *ssa.FieldAddr:
+					if !loadsOnly(u) {
+						return nil, false
+					}
+				case *ssa.DebugRef:
+				default:
+					return nil, false
+				}
+			}
+			if st == nil || !l.Blocks[st.Block()] || !instrBefore(st, ld) {
+				return nil, false
+			}
+			whole, isLd := st.Val.(*ssa.UnOp)
+			if !isLd || whole.Op != token.MUL {
+				return nil, false
+			}
+			tab = curEntry(whole.X)
+		}
+		if tab == nil {
+			return nil, false
+		}
+		r2, n2, ok := c15TableRoot(tab)
+		if !ok || (root != nil && r2 != root) {
+			return nil, false
+		}
+		root, n = r2, n2
+		fields[j] = fa.Field
+	}
+	if _, isStruct := deref(root.Type()).Underlying().(*types.Array).Elem().Underlying().(*types.Struct); !isStruct {
+		return nil, false
+	}
+	// bound: len(T) or the constant N
+	switch b := bound.(type) {
+	case *ssa.Const:
+		if b.Value == nil || b.Value.Kind() != constant.Int {
+			return nil, false
+		}
+		if v, exact := constant.Int64Val(b.Value); !exact || v != n {
+			return nil, false
+		}
+	case *ssa.Call:
+		bi, isB := b.Call.Value.(*ssa.Builtin)
+		if !isB || bi.Name() != "len" || len(b.Call.Args) != 1 {
+			return nil, false
+		}
+		if r2, _, ok2 := c15TableRoot(b.Call.Args[0]); !ok2 || r2 != root {
+			return nil, false
+		}
+	default:
+		return nil, false
+	}
+	// the table: who refers to the array
+	cells := make([]map[int]ssa.Value, n)
+	for k := range cells {
+		cells[k] = map[int]ssa.Value{}
+	}
+	for _, r := range *root.Referrers() {
+		switch x := r.(type) {
+		case *ssa.DebugRef:
+		case *ssa.IndexAddr:
+			if x.X != ssa.Value(root) {
+				return nil, false
+			}
+			k, isC := x.Index.(*ssa.Const)
+			if !isC {
+				if !readOnlyElem(x) {
+					return nil, false
+				}
+				continue
+			}
+			if k.Value == nil || k.Value.Kind() != constant.Int {
+				return nil, false
+			}
+			ki, exact := constant.Int64Val(k.Value)
+			if !exact || ki < 0 || ki >= n {
+				return nil, false
+			}
+			for _, rr := range *x.Referrers() {
+				switch fa := rr.(type) {
+				case *ssa.DebugRef:
+				case *ssa.UnOp:
+					if fa.Op != token.MUL {
+						return nil, false
+					}
+				case *ssa.FieldAddr:
+					if loadsOnly(fa) {
+						continue
+					}
+					// the initialising store of field fa.Field of entry ki: the address is used for that store and nothing else
+					var st *ssa.Store
+					for _, r3 := range *fa.Referrers() {
+						switch s := r3.(type) {
+						case *ssa.DebugRef:
+						case *ssa.Store:
+							if st != nil || s.Addr != ssa.Value(fa) || s.Val == ssa.Value(fa) {
+								return nil, false
+							}
+							st = s
+						default:
+							return nil, false
+						}
+					}
+					if st == nil {
+						return nil, false
+					}
+					if _, dup := cells[ki][fa.Field]; dup {
+						return nil, false
+					}
+					// executed before the loop is entered
+					if l.Blocks[st.Block()] || !st.Block().Dominates(l.Header) {
+						return nil, false
+					}
+					cells[ki][fa.Field] = st.Val
+				default:
+					return nil, false
+				}
+			}
+		case *ssa.Slice:
+			if x.X != ssa.Value(root) || x.Low != nil || x.High != nil || x.Max != nil {
+				return nil, false
+			}
+			for _, rr := range *x.Referrers() {
+				switch u := rr.(type) {
+				case *ssa.DebugRef:
+				case *ssa.IndexAddr:
+					if u.X != ssa.Value(x) || !readOnlyElem(u) {
+						return nil, false
+					}
+				case *ssa.Call:
+					bi, isB := u.Call.Value.(*ssa.Builtin)
+					if !isB || (bi.Name() != "len" && bi.Name() != "cap") {
+						return nil, false
+					}
+				default:
+					return nil, false
+				}
+			}
+		default:
+			return nil, false
+		}
+	}
+	rows := make([][]ssa.Value, n)
+	for k := range rows {
+		for _, f := range fields {
+			v, ok := cells[k][f]
+			if !ok {
+				return nil, false
+			}
+			rows[k] = append(rows[k], v)
+		}
+	}
+	return rows, true
+}
